@@ -145,6 +145,9 @@ impl Gen {
         // wrappers that any position may carry
         if depth > 0 && self.r.chance(1, 12) {
             let inner = self.expr(depth - 1, want);
+            if self.malformed && self.r.chance(1, 6) {
+                return E::EvalCoerce(Box::new(tir::Coerce::IntoScript(inner)));
+            }
             return match self.r.below(3) {
                 0 => E::EvalBuiltIn(Box::new(tir::BuiltInOp::NoOp(inner))),
                 1 => E::EvalCoerce(Box::new(tir::Coerce::NoOp(inner))),
@@ -268,7 +271,7 @@ impl Gen {
     }
 
     fn asset_entry(&mut self, depth: u32) -> tir::AssetExpr {
-        let amount = self.int_expr(depth.min(2));
+        let amount = self.expr(depth.min(2), Want::Int);
         match self.r.below(4) {
             0 | 1 => tir::AssetExpr {
                 policy: E::None,
